@@ -73,6 +73,38 @@ def send(m, check, events):
     return st, rejected, text, reply
 
 
+CLAIMS = {"static": "STATIC", "out": "OUTPUT", "vol": "VOLATILE"}
+
+
+def expected_conflict(ta, ca, xa, tb, cb, xb):
+    """Reference answer for clear-cut pairs: True (must be rejected in both orders), False (must be
+    accepted in both orders) or None (not decided by this reference)."""
+    ka, kb = ca[0], cb[0]
+    if ka in CLAIMS and kb in CLAIMS and ca[1] == cb[1]:
+        # a path has one owner in one role: a step is the owner of what it is defined with,
+        # the sender is the owner of what it declares static or amends
+        owner_a = ("step", ta, xa) if ta.startswith("step") else ("sender", xa)
+        owner_b = ("step", tb, xb) if tb.startswith("step") else ("sender", xb)
+        return not (CLAIMS[ka] == CLAIMS[kb] and owner_a == owner_b)
+    if {ka, kb} == {"inp", "vol"} and ca[1] == cb[1]:
+        return True
+    if "tree" in (ka, kb) and ka != kb:
+        tree, other, xt, xo = (ca, cb, xa, xb) if ka == "tree" else (cb, ca, xb, xa)
+        if other[0] in ("out", "vol") and (other[1] + "/").startswith(tree[1]):
+            return True
+        if other[0] == "static" and (other[1] + "/").startswith(tree[1]):
+            return xt != xo
+        if other[0] in ("inp",):
+            return False
+    if {ka, kb} == {"inp", "out"} and ca[1] == cb[1] and ta.startswith("amend") and tb.startswith("amend") and xa == xb:
+        return True  # one step consuming its own output: a cycle
+    if ka == "inp" and kb == "inp":
+        return False
+    if {ka, kb} <= {"inp", "static", "out"} and "inp" in (ka, kb):
+        return False
+    return None
+
+
 def touches(ca, cb):
     pa, pb = ca[1], cb[1]
     if ca[0] == "glob" or cb[0] == "glob":
@@ -158,6 +190,14 @@ def run_pairs(spec, acc):
             if rej_ab and rej_ba and text_ab != text_ba:
                 texts_out.append({"a": ta, "by_a": CREATORS[xa], "b": tb, "by_b": CREATORS[xb],
                                   "claims": [list(ca), list(cb)], "a_then_b": text_ab, "b_then_a": text_ba})
+            exp = expected_conflict(ta, ca, xa, tb, cb, xb)
+            if exp is not None and (rej_ab != exp or rej_ba != exp) and rej_ab == rej_ba:
+                acc.violation(f"C08|{'conflict-accepted' if exp else 'rejected-without-conflict'}|{cls}",
+                              {"why": "two conflicting declarations are both accepted" if exp else
+                               "two compatible declarations are rejected",
+                               "a": ta, "by_a": CREATORS[xa], "b": tb, "by_b": CREATORS[xb],
+                               "a_then_b_rejected": rej_ab, "b_then_a_rejected": rej_ba,
+                               "text": text_ab or text_ba}, None)
             if rej_ab != rej_ba:
                 acc.violation(f"C08|order-dependent|{cls}",
                               {"why": "the pair is rejected in one arrival order and accepted in the other",
